@@ -154,6 +154,58 @@ pub fn check_context(trace: u128, span: u64, sampled: bool) -> Vec<Viol> {
     out
 }
 
+/// The codecs are pure functions of their argument, whatever the calling context: the same checks
+/// run from the destructors of two user thread-locals while the thread's local storage is torn
+/// down, one registered before the thread's first codec call and one after it (so that one of
+/// them outlives whatever the library registered in between, in either destruction order).
+pub fn check_in_teardown(trace: u128, span: u64, sampled: bool) -> Vec<Viol> {
+    use std::cell::RefCell;
+    use std::sync::mpsc::{channel, Sender};
+    struct Sentinel(RefCell<Option<(u128, u64, bool, &'static str, Sender<Vec<Viol>>)>>);
+    impl Drop for Sentinel {
+        fn drop(&mut self) {
+            if let Some((t, s, b, which, tx)) = self.0.get_mut().take() {
+                let r = catch_unwind(|| {
+                    let mut o = check_context(t, s, b);
+                    o.extend(check_ids(t, s));
+                    o
+                });
+                let mut o = match r {
+                    Ok(o) => o,
+                    Err(_) => vec![v("encode-panic", format!("a codec call panicked for ({:x},{:x},{})", t, s, b))],
+                };
+                for x in o.iter_mut() {
+                    x.sig = format!("in-thread-local-destructor:{}", x.sig);
+                    x.msg = format!("[called from the destructor of a thread-local registered {} the thread's first codec call] {}", which, x.msg);
+                }
+                let _ = tx.send(o);
+            }
+        }
+    }
+    thread_local! {
+        static EARLY: Sentinel = Sentinel(RefCell::new(None));
+        static LATE: Sentinel = Sentinel(RefCell::new(None));
+    }
+    let (tx, rx) = channel();
+    let h = std::thread::spawn(move || {
+        EARLY.with(|e| *e.0.borrow_mut() = Some((trace, span, sampled, "before", tx.clone())));
+        let mut o = check_context(trace, span, sampled);
+        o.extend(check_ids(trace, span));
+        LATE.with(|e| *e.0.borrow_mut() = Some((trace, span, sampled, "after", tx)));
+        o
+    });
+    let mut out = h.join().unwrap_or_else(|_| vec![v("encode-panic", "the thread panicked".to_string())]);
+    let mut n = 0;
+    while let Ok(o) = rx.recv() {
+        out.extend(o);
+        n += 1;
+    }
+    if n != 2 {
+        out.push(v("in-thread-local-destructor:did-not-run", format!("{} of 2 destructors reported", n)));
+    }
+    out
+}
+
 /// generated ids and contexts (`random()`, `Default`) are ordinary values: they round-trip too
 pub fn check_generated_values() -> Vec<Viol> {
     let mut out = vec![];
